@@ -229,10 +229,12 @@ pub struct Outcome {
 impl Outcome {
     /// Class of the warning(s) the call reported, in the vocabulary of Conn.tla ("-": none).
     pub fn warn_class(&self) -> String {
-        match self.warnings.len() {
+        // findings of the packet reader on non-canonical input (forged datagrams) are not modelled
+        let ws: Vec<&String> = self.warnings.iter().filter(|w| !w.starts_with("Packet(")).collect();
+        match ws.len() {
             0 => "-".to_string(),
             1 => {
-                let w = &self.warnings[0];
+                let w = ws[0];
                 for k in ["ConnlessTokenMismatch", "ConnlessResponseTokenMismatch", "TokenMismatch", "Unexpected"] {
                     if w == k {
                         return k.to_string();
@@ -244,7 +246,7 @@ impl Outcome {
                     format!("other: {}", w)
                 }
             }
-            n => format!("{} warnings: {}", n, self.warnings.join(", ")),
+            n => format!("{} warnings: {}", n, ws.iter().map(|w| w.as_str()).collect::<Vec<_>>().join(", ")),
         }
     }
 }
